@@ -755,24 +755,29 @@ def specializeCommands(
             d2, d3 = op2[:2]
 
             if d1 == "r" or d2 == "r" or d0 == d3 == "r":
+                stackUse = _argsStackUse(args1)
                 continue
 
             d = _mergeCategories(d1, d2)
             if d is None:
+                stackUse = _argsStackUse(args1)
                 continue
             if d0 == "r":
                 d = _mergeCategories(d, d3)
                 if d is None:
+                    stackUse = _argsStackUse(args1)
                     continue
                 new_op = "r" + d + "curveto"
             elif d3 == "r":
                 d0 = _mergeCategories(d0, _negateCategory(d))
                 if d0 is None:
+                    stackUse = _argsStackUse(args1)
                     continue
                 new_op = d0 + "r" + "curveto"
             else:
                 d0 = _mergeCategories(d0, d3)
                 if d0 is None:
+                    stackUse = _argsStackUse(args1)
                     continue
                 new_op = d0 + d + "curveto"
 
